@@ -26,6 +26,9 @@ type Gate struct {
 	relOnce  sync.Once
 	arrivals int32
 	oneShot  bool
+	// Abreast: the goroutines parked at the gate leave it at the same instant (each spins, briefly, until all of them are awake)
+	Abreast bool
+	awake   int32
 }
 
 var (
@@ -142,6 +145,11 @@ func handle(point string, ids ...string) {
 		atomic.AddInt32(&g.arrivals, 1)
 		g.once.Do(func() { close(g.arrived) })
 		<-g.release
+		if g.Abreast {
+			atomic.AddInt32(&g.awake, 1)
+			for t0 := time.Now(); atomic.LoadInt32(&g.awake) < atomic.LoadInt32(&g.arrivals) && time.Since(t0) < 2*time.Millisecond; {
+			}
+		}
 		return
 	}
 	if p := atomic.LoadInt32(&yieldP); p > 0 {
